@@ -64,7 +64,8 @@ NewTree(e, P) ==
                              parts |-> <<[pos |-> 0, t |-> P[e.i]], [pos |-> Width(P[e.i]), t |-> P[e.j]]>>]
     [] e.act = "cond" -> [k |-> "tst", sf |-> 0, c |-> P[e.c], l |-> P[e.i], r |-> P[e.j], w |-> Width(P[e.i])]
     [] e.act = "ext" -> [k |-> "xt", sf |-> 0, sg |-> e.sg, x |-> P[e.i], w |-> e.w]
-    [] e.act \in {"simplify", "pickle"} -> P[e.i]
+    [] e.act \in {"simplify", "pickle", "mapw"} -> P[e.i]
+    [] e.act = "subst" -> Subst(P[e.i], "a", P[e.j])
 
 (* first disagreement between an observed tree and the denoted tree over the trace's valuations:
    0 if none, else the index of the valuation *)
@@ -95,8 +96,8 @@ MeaningFail(v, prop, clause, obs, den, h, i) ==
 (* checks on one live entry x = [h, tree] given the pool after the call; newh = index of the new handle *)
 CheckLive(v, x, P, newh) ==
   LET den == P[x.h] isnew == x.h = newh IN
-  IF x.tree.k \in {"top", "vec"} THEN v
-  ELSE IF x.tree.w # Width(den) THEN Fail(v, IF isnew THEN "C12" ELSE "C13", IF isnew THEN "Width" ELSE "FrameWidth", x.h, 0)
+  IF x.tree.w # Width(den) THEN Fail(v, IF isnew THEN "C12" ELSE "C13", IF isnew THEN "Width" ELSE "FrameWidth", x.h, 0)
+  ELSE IF x.tree.k \in {"top", "vec"} THEN v
   ELSE IF ~WellSized(x.tree) THEN Fail(v, "C12", "Tiles", x.h, 0)
   ELSE LET i == Disagree(x.tree, den, 1) IN
        IF i = 0 THEN v
@@ -143,7 +144,7 @@ Step ==
           /\ verdict' =
                IF e.raised # ""
                THEN (IF AlwaysUnknown(t) THEN verdict ELSE Fail(verdict, "C01", "Total", newh, 0))
-               ELSE LET v1 == IF e.act = "pickle" /\ e.same = 0 THEN Fail(verdict, "C13", "Pickle", newh, 0) ELSE verdict
+               ELSE LET v1 == IF e.act \in {"pickle", "mapw"} /\ e.same = 0 THEN Fail(verdict, "C13", "Pickle", newh, 0) ELSE verdict
                     IN CheckAllLive(v1, e.live, 1, P, newh)
 
 Finish ==
